@@ -41,6 +41,9 @@ structure Behav where
   kidTerm : Option Nat := some 0
   execFail : Bool := false         -- Popen raises OSError for this attempt
   spawnMs : Nat := 0               -- time the fork/exec (and the after_spawn hook) takes
+  eperm : Bool := false            -- the daemon is not permitted to signal this process (it runs under another uid):
+                                   -- `os.kill` raises EPERM, psutil turns it into AccessDenied
+  kidEperm : Bool := false         -- … nor the children it forks
   deriving Repr, Inhabited
 
 structure KProc where
